@@ -73,3 +73,22 @@ fn c19_enum_list_terminates() {
 fn c19_set_list_terminates() {
     open_list(b"set(");
 }
+
+// input-free witnesses for the unterminated value list (D8): concrete text, no symbolic input
+#[kani::proof]
+#[kani::unwind(12)]
+#[kani::stub(alloc::fmt::format, crate::verif_support::fake_format)]
+fn c19_enum_unterminated_inputfree() {
+    let mut p = Parser::of("enum(a");
+    let r = FieldType::try_parse(&mut p);
+    core::mem::forget(r);
+}
+
+#[kani::proof]
+#[kani::unwind(12)]
+#[kani::stub(alloc::fmt::format, crate::verif_support::fake_format)]
+fn c19_set_unterminated_inputfree() {
+    let mut p = Parser::of("set(");
+    let r = FieldType::try_parse(&mut p);
+    core::mem::forget(r);
+}
